@@ -1,17 +1,16 @@
 SPECIFICATION Spec
 CONSTANTS
   NG = 2
-  MAXCALLS = 5
-  MAXFIT = 2
+  MAXCALLS = 3
+  MAXFIT = 1
   NP = 1
-  E = 3
+  E = 2
   LAST_WINS = FALSE
-  SORT_OBJ_ONLY = TRUE
+  SORT_OBJ_ONLY = FALSE
   BLOCK = 1
   TAIL_COUNT = FALSE
   START_INT = TRUE
-  KEEP_DTYPE = FALSE
+  KEEP_DTYPE = TRUE
   DROP_SETT = FALSE
-INVARIANT SavedColumnsOwn
-PROPERTY OnlyCurrentGrainMoves
+INVARIANT StoredIsFitted
 CHECK_DEADLOCK FALSE
